@@ -20,6 +20,24 @@ Record case11 := mk11 {
   c_seq : impl_res                               (* partition under a pool of one thread *)
 }.
 
+(* ---------- points of large inputs, given by formulas (the harness evaluates the same ones) ---------- *)
+
+Inductive cspec :=
+| CAff (a b m q : Z)                          (* ((a * i + b) mod m) / q *)
+| CBlock (order : list Z) (interleave : bool). (* b = order[i / 1024], o = i mod 1024: o * nb + b or b * 1024 + o *)
+
+Definition cval (s : cspec) (i : Z) : Z :=
+  match s with
+  | CAff a b m q => (((a * i + b) mod m) / q)%Z
+  | CBlock order il =>
+    let b := nth (Z.to_nat (i / 1024)) order 0%Z in
+    let o := (i mod 1024)%Z in
+    if il then (o * Z.of_nat (length order) + b)%Z else (b * 1024 + o)%Z
+  end.
+
+Definition gen_pts (n : nat) (specs : list cspec) : list (list N) :=
+  map (fun i => map (fun s => f64_to_bits (f64_of_Z (cval s (Z.of_nat i)))) specs) (seq 0 n).
+
 (* ---------- generic helpers ---------- *)
 
 Fixpoint map_scheme {B C} (f : B -> C) (s : scheme B) : scheme C :=
@@ -133,7 +151,7 @@ Definition F64impl : arith := if mj_refine_ulps_epsilon_is_zero then F64 else F6
 
 Definition unwritten : N := 18446744073709551615.
 
-Definition eval11 (c : case11) : verdict :=
+Definition eval_small (c : case11) : verdict :=
   let D := c_dim c in
   let n := length (c_pts c) in
   let k := c_k c in
@@ -204,7 +222,14 @@ Definition eval11 (c : case11) : verdict :=
     if in_contract then
       match c_impl c with
       | IOk p => check_range k n p &&
-                 (if positive && Nat.leb 1 n then check_balance (c_ws c) p k m else true)
+                 (if positive && Nat.leb 1 n then check_balance (c_ws c) p k m else true) &&
+                 (* necessary condition of the jagged hierarchy, from ids and coordinates alone *)
+                 match c_scheme c with
+                 | Some h => let pm := pm_of_list p in
+                             check_separated N D cxlt (fun i => match pm_get pm i with Some x => x | None => unwritten end)
+                                             h n (N.to_nat k)
+                 | None => true
+                 end
       | _ => false                         (* panic or hang inside the contract *)
       end
     else true in
@@ -213,5 +238,58 @@ Definition eval11 (c : case11) : verdict :=
   {| corr_ok := scheme_ok && sorts_ok && part_ok && jag_ok && (negb in_contract || forallb root_entry_ok tbl);
      prop_ok := prop;
      cls := stream * 100 + outcome * 10 + (if exact_agrees then 0 else 1) |}.
+
+(* Large structured inputs (n > 600): the model is not re-run (its list-based
+   gather and sort validation are quadratic); the implementation's output is
+   judged by the proved checkers alone — range, balance and the separation of
+   the parts along the scheme's axes — the scheme is still rebuilt and compared,
+   and the output must be the one-thread output up to renaming. *)
+Definition eval_big (c : case11) : verdict :=
+  let D := c_dim c in
+  let n := length (c_pts c) in
+  let k := c_k c in
+  let m := c_iter c in
+  let ptsm := pm_of_list (map (map f64_of_bits) (c_pts c)) in
+  let cx (a i : nat) := match pm_get ptsm i with Some l => nth a l S754_nan | None => S754_nan end in
+  let cxlt (a x y : nat) := flt (cx a x) (cx a y) in
+  let tbl := match c_scheme c with Some s => roots_of s k m | None => [(k, m, c_root0 c)] end in
+  let root := root_of_table tbl in
+  let scheme_ok :=
+    match partition_scheme F64impl root k m, c_scheme c with
+    | Ok s, Some h => scheme_eqb (map_scheme f64_to_bits s) h
+    | Panic _, None => true
+    | _, _ => false
+    end in
+  let nonneg := forallb (fun w => (0 <=? w)%Z) (c_ws c) in
+  let positive := forallb (fun w => (0 <? w)%Z) (c_ws c) in
+  let in_contract := (1 <=? k) && Nat.leb 1 m && nonneg && Nat.leb 1 D && Nat.eqb (length (c_ws c)) n in
+  let prop :=
+    if in_contract then
+      match c_impl c with
+      | IOk p => check_range k n p &&
+                 (if positive && Nat.leb 1 n then check_balance (c_ws c) p k m else true) &&
+                 match c_scheme c with
+                 | Some h => let pm := pm_of_list p in
+                             check_separated N D cxlt (fun i => match pm_get pm i with Some x => x | None => unwritten end)
+                                             h n (N.to_nat k)
+                 | None => true
+                 end
+      | _ => false
+      end
+    else true in
+  let same_as_solo :=
+    match c_impl c, c_seq c with
+    | IOk p, IOk ps => same_up_to_renaming p ps
+    | IPanic, IPanic => true
+    | _, _ => false
+    end in
+  let stream := if negb in_contract then 3 else if negb positive then 1 else if N.of_nat n <? k then 2 else 0 in
+  let outcome := match c_impl c with IOk _ => 0 | IPanic => 1 | IHang => 2 | IErr _ _ _ => 3 end in
+  {| corr_ok := scheme_ok && same_as_solo && (negb in_contract || forallb root_entry_ok tbl);
+     prop_ok := prop;
+     cls := stream * 100 + outcome * 10 + 2 |}.
+
+Definition eval11 (c : case11) : verdict :=
+  if Nat.ltb 600 (length (c_pts c)) then eval_big c else eval_small c.
 
 Definition run11 (cs : list case11) := report (map eval11 cs).
